@@ -69,6 +69,10 @@ func (g *Gen) concPrivateGraph(sharedUntracked []int) {
 		return
 	}
 	s := sharedUntracked[g.intn(len(sharedUntracked))]
+	if len(sharedUntracked) > 1 && g.chance(0.6) {
+		// several goroutines should meet on the SAME shared tensor: prefer one of them
+		s = sharedUntracked[1]
+	}
 	ds := g.shapeOf(s)
 	w := g.leafDistinct(ds, true, -1.5, 1.5)
 	pool := []int{w, s}
